@@ -698,10 +698,64 @@ func c08(c *Ctx) {
 	}
 
 	// ---------- S4 lock hygiene
+	// which locks does a method acquire, itself or through the package's own functions it calls?
+	acquires := map[*types.Func]map[string]bool{}
+	byObj := map[*types.Func]*load.FuncInfo{}
+	for _, fi := range methods {
+		byObj[fi.Obj] = fi
+	}
+	var acq func(fi *load.FuncInfo, seen map[*load.FuncInfo]bool) map[string]bool
+	acq = func(fi *load.FuncInfo, seen map[*load.FuncInfo]bool) map[string]bool {
+		if a, ok := acquires[fi.Obj]; ok {
+			return a
+		}
+		out := map[string]bool{}
+		if seen[fi] || fi.Body() == nil {
+			return out
+		}
+		seen[fi] = true
+		for _, call := range astx.Calls(fi.Body(), false) {
+			if op := lockOpOf(fi.Info(), call); op != nil {
+				if op.op == "Lock" || op.op == "RLock" {
+					out[op.lock] = true
+				}
+				continue
+			}
+			if fn := astx.Callee(fi.Info(), call); fn != nil {
+				if cal := byObj[fn]; cal != nil {
+					for k := range acq(cal, seen) {
+						out[k] = true
+					}
+				}
+			}
+		}
+		acquires[fi.Obj] = out
+		return out
+	}
+	for _, fi := range methods {
+		acq(fi, map[*load.FuncInfo]bool{})
+	}
 	for _, fi := range methods {
 		info := fi.Info()
 		g := c.Graph(fi)
 		lf := c.lockFlow(fi, g, lockSet{})
+		// no call, with a lock held, to a method that acquires the same lock (sync.RWMutex is not re-entrant; even a
+		// nested RLock deadlocks as soon as a writer queues between the two)
+		for _, v := range g.Nodes() {
+			if v.Node == nil || len(lf.may[v.ID]) == 0 {
+				continue
+			}
+			for _, call := range astx.Calls(v.Node, false) {
+				fn := astx.Callee(info, call)
+				if fn == nil || byObj[fn] == nil {
+					continue
+				}
+				for lk := range lf.may[v.ID] {
+					r.Check(!acquires[fn][lk], "C08.S4", fi.Name(), "no call to "+fname(fn)+" (acquires "+lk+") while "+lk+" is held", c.P.Pos(call.Pos()), "lockset before: "+lf.may[v.ID].String(),
+						"a method that acquires "+lk+" is called while this goroutine already holds it: sync.RWMutex is not re-entrant — a nested Lock deadlocks at once, a nested RLock as soon as a writer (Add, Delete) queues between the two acquisitions, after which GetNext and every other caller stay blocked forever")
+				}
+			}
+		}
 		hasOps := false
 		for _, call := range astx.Calls(fi.Body(), false) {
 			if lockOpOf(info, call) != nil {
